@@ -30,7 +30,8 @@ Section EPlusGG.
   Definition ep_assemble (fixed : bool) (p : ep_params) (epsil : T) : M (interaction T) :=
     let tau := ep_tau p in
     let tau2 := tau + n2 in
-    let cost := (epsil * tau2 - n1) / (epsil * nsqrt (tau * tau2)) in
+    (* clamp(..., -1, 1): since /repo 9ddc3d9 *)
+    let cost := nclamp ((epsil * tau2 - n1) / (epsil * nsqrt (tau * tau2))) (- n1) n1 in
     let total_energy := ep_energy p + n2 * ep_me p in
     let gamma_energy := epsil * total_energy in
     let eplus_moment := nsqrt (ep_energy p * total_energy) in
